@@ -4,7 +4,7 @@ SPEC = {
     "lean_modules": ["SemaModel.C01.Props"],
     "lean_dirs": ["SemaModel/C01"],
     "harness": "c01",
-    "harness_args": {"quick": ["-hist", 500, "-batches", 10], "thorough": ["-hist", 1400, "-batches", 14, "-thorough"]},
+    "harness_args": {"quick": ["-hist", 500, "-batches", 10], "thorough": ["-hist", 4000, "-batches", 14, "-thorough"]},
     "timeout": {"quick": 900, "thorough": 3000},
     "level": "proof",
     "tie": "T3: random histories of insert/update/delete batches on a real shard (bbolt file and memory backend, index schemas none / string+integer+float+stringArray+nested string / text+string / flat vector+integer / vamana vector+string) are replayed line by line on the Lean model; compared after every batch: the batch result, the full points and internal buckets in the model's symbolic keys (through Shard.VerifDB), the select-all read of the whole id pool, Info().PointCount and two reads by id (answered by the Lean *spec*). The oracles of the model (free-id order, delete iteration order) are read back from the implementation. T2: tools/facts_c01 pins DELETEVALUE, the start value of the id counter, the bodies of IdCounter.NextId / FreeId and that count and counter are written after the pipeline's error check.",
